@@ -1382,4 +1382,39 @@ package engine
 //@ func Retract$1$1
 //@   property C09 C05
 //@   safety own
-//@   requires u != nil
+//@   requires u != nil && k != nil
+//@   loop 1 invariant -1 <= $i && $i < old(len(u.clauses))
+//@   loop 1 invariant len(u.clauses) == old(len(u.clauses)) && backing(u.clauses) == old(backing(u.clauses)) && offset(u.clauses) == old(offset(u.clauses))
+//@   at-call append requires[deletes-the-very-clause] len(a0) < old(len(u.clauses)) && id(old(u.clauses[now(len(a0))].raw)) == id(c.raw)
+//@   onk[at-most-one-clause-goes] len(u.clauses) == old(len(u.clauses)) || len(u.clauses) == old(len(u.clauses)) - 1
+
+//@ func piArg
+//@   trusted
+//@   modifies nothing
+
+//@ func Assertz$1
+//@   property C09
+//@   modifies heap
+//@   ensures[appends-at-the-end] len(result) == len(existing) + len(new)
+//@   ensures[existing-clauses-keep-their-place] forall j int :: 0 <= j && j < len(existing) ==> result[j].raw == old(existing[j].raw) && result[j].bytecode == old(existing[j].bytecode)
+//@   ensures[new-clauses-follow-in-order] forall j int :: 0 <= j && j < len(new) ==> result[len(existing) + j].raw == old(new[j].raw) && result[len(existing) + j].bytecode == old(new[j].bytecode)
+
+//@ func Asserta$1
+//@   property C09
+//@   modifies heap
+//@   ensures[inserts-at-the-front] len(result) == len(existing) + len(new)
+//@   ensures[new-clauses-come-first-in-order] forall j int :: 0 <= j && j < len(new) ==> result[j].raw == old(new[j].raw) && result[j].bytecode == old(new[j].bytecode)
+//@   ensures[existing-clauses-follow-in-order] forall j int :: 0 <= j && j < len(existing) ==> result[len(new) + j].raw == old(existing[j].raw) && result[len(new) + j].bytecode == old(existing[j].bytecode)
+
+//@ func assertMerge
+//@   property C09
+//@   requires vm != nil && merge != nil
+//@   nosafety
+//@   bind added, cerr = compile#1
+//@   assume-call preserves class map[procedureIndicator]procedure
+//@   at-call dynamic#2 requires[merges-the-stored-clauses-with-the-compiled-ones] a1 == added
+//@   ensures[a-failed-assert-changes-no-procedure] result != nil ==> forall q procedureIndicator :: has(vm.procedures, q) == old(has(vm.procedures, q))
+
+//@ func clauses.call$1
+//@   property C09
+//@   captures-copy c clause
